@@ -54,6 +54,8 @@ uint8_t *vpx__Znam(uint64_t n) {
     try { return (uint8_t *)operator new[](n); } catch (std::bad_alloc &) { vp_exc_pending = 1; vp_exc_kind = VP_EXC_BAD_ALLOC; return 0; }
 }
 void vpx__ZdaPv(uint8_t *p) { operator delete[](p); }
+void *vp_heap_alloc(uint64_t n) { return std::malloc(n); }
+void vp_heap_free(void *p) { std::free(p); }
 void vp_clear_exception(void) { vp_exc_pending = 0; vp_exc_kind = VP_EXC_NONE; }
 
 void vp_native_catch(void) {
